@@ -184,7 +184,3 @@ func printUnit(u *UnitResult, dump bool) {
 	}
 }
 
-func runProperty(p *Program, id, tier, work string, keep bool) int {
-	fmt.Fprintln(os.Stderr, "property driver not built yet")
-	return 2
-}
